@@ -13,6 +13,7 @@ Line-protocol driver for the AD model (property C02).
   stacked <spots> <cols> <eqs…>          -> entries
   sysmat F <logly bits> <ndata> (q s val)… <tv> <neq> (<wrt> <expr>)…  -> A=row;row|B=row;row   (dense, bits)   | err:rejected
   evhist (f|j|e):<point id> …             -> the point in force at every observation
+  termrows <all spots> <nreg> <cols> <eqs…>  -> sorted rows of the stored pattern beyond the regular spots   (terminate_jacobian)
   termspots <cols> <qids> <last> <n (q maxshift)…>  -> inx:q:c,…     (Terminator.__init__)
   termjac <wrt spots> <terminit spots>   -> lhsCol:rhsCol,…            (create_terminal_jacobian_map)
 Entries print as `lhsRow:lhsCol:rhsRow:rhsCol`.
@@ -264,6 +265,13 @@ def step (line : String) : String :=
       let outs := evRun (fun (p : Nat) => p) (fun (p : Nat) => p) 0 ops
       pure (" ".intercalate (outs.map (fun o => match o with
         | .func f => "f:" ++ toString f | .jacob j => "j:" ++ toString j | .both f j => "e:" ++ toString f ++ ":" ++ toString j)))
+    | "termrows" :: ws => do
+      let (spots, ws) ← pCounted pToken ws
+      let (nreg, ws) ← pNat ws
+      let (cols, ws) ← pCounted pInt ws
+      let (eqs, ws) ← pCounted (pCounted pToken) ws
+      if !ws.isEmpty then none
+      pure (",".intercalate ((terminalRows spots nreg cols eqs).map toString))
     | "termspots" :: ws => do
       let (cols, ws) ← pCounted pInt ws
       let (qids, ws) ← pCounted pNat ws
